@@ -19,6 +19,7 @@ mod sched;
 mod spec;
 mod target;
 mod worker;
+mod zygote;
 
 use std::io::Read;
 
@@ -62,8 +63,9 @@ fn main() {
             // layout salt, second half: a first dummy allocation
             let _pad: Vec<u8> = Vec::with_capacity((spec.layout_salt as usize % 64) * 4096 + 1);
             let res = worker::run_session(&spec);
-            println!("{}", serde_json::to_string(&res).unwrap());
+            worker::emit_result(&res);
         }
+        "zygote" => zygote::zygote_main(),
         "run-spec" => {
             // driver-side convenience: run a session spec file in a fresh worker and print the result
             let text = std::fs::read_to_string(&args[2]).expect("read");
